@@ -89,18 +89,26 @@ class Model:
             get = lambda i: vals[i] if i < len(vals) else self.zero   # noqa: E731
         else:
             get = lambda i: x[self.names[i]]                          # noqa: E731
+        mag = 0.0
         for o in spec['outs']:
             g = o.get('gate')
             if g is not None and not (get(g[0]) > g[1]):
                 continue
             v = self.zero + o['b']
+            m = abs(o['b'])
             for i, wi in enumerate(o['w']):
                 if wi and i < len(self.names):
-                    v = v + wi * get(i)
+                    t = wi * get(i)
+                    v = v + t
+                    m += abs(float(t))
             p = o.get('pair')
             if p is not None:
-                v = v + p[2] * get(p[0]) * get(p[1])
+                t = p[2] * get(p[0]) * get(p[1])
+                v = v + t
+                m += abs(float(t))
             out[_label(o['label'])] = v
+            mag = max(mag, m)
+        self.term_scale = max(getattr(self, 'term_scale', 0.0), mag)   # size of the terms an output is summed from (cancellation)
         if spec.get('opt') and not spec.get('positional'):
             first = _label(spec['outs'][0]['label'])
             out[first] = out[first] + spec['opt'][0] * x.get('opt0', 0)
